@@ -2174,11 +2174,152 @@ func c05ReplyBodyClosed(c *core.Ctx, fns []*ssa.Function) {
 			if !where.IsValid() {
 				where = rt.Pos()
 			}
+			// ... or the close was arranged BEFORE the round trip: a function literal deferred on every path to it
+			// closes (itself, or in a literal it defers) the body of the reply held in a variable of the function,
+			// under no other condition than "there is a reply", and the round trip's result is what that variable holds
+			if bad {
+				closesIn := func(lit *ssa.Function) bool {
+					ok := false
+					core.InstrsDeep(lit, func(_ *ssa.Function, x ssa.Instruction) {
+						cc := core.CallOf(x)
+						if cc != nil && cc.IsInvoke() && cc.Method.Name() == "Close" && strings.HasSuffix(core.TypeStr(cc.Value.Type()), "ReadCloser") {
+							ok = true
+						}
+					})
+					return ok
+				}
+				var cell *ssa.Alloc
+				core.Instrs(fn, func(x ssa.Instruction) {
+					if st, isSt := x.(*ssa.Store); isSt {
+						if al, isAl := st.Addr.(*ssa.Alloc); isAl {
+							if cr, idx, isC := core.CallResult(st.Val); isC && cr == rt && idx == 0 {
+								cell = al
+							}
+						}
+					}
+				})
+				if cell != nil {
+					for _, d := range fn.Blocks {
+						for _, x := range d.Instrs {
+							df, isD := x.(*ssa.Defer)
+							if !isD {
+								continue
+							}
+							mc, isMC := df.Call.Value.(*ssa.MakeClosure)
+							if !isMC || !closesIn(mc.Fn.(*ssa.Function)) {
+								continue
+							}
+							captures := false
+							for _, b := range mc.Bindings {
+								if b == ssa.Value(cell) {
+									captures = true
+								}
+							}
+							if captures && core.MustPass(core.Entry(fn), rt, func(y ssa.Instruction) bool { return y == ssa.Instruction(df) }) {
+								bad = false
+							}
+						}
+					}
+				}
+			}
 			c.Check(!bad, key, where, "after a successful RoundTrip every path to a return passes the close of the reply body (a defer or the reader goroutine registered right after the error test)", "after a successful RoundTrip a return is reachable before the reply body's close has been arranged (an early return above the defer): the body is never closed, so the transport's connection and its read/write goroutines stay behind after the call has completed")
 		}
 	}
 	if n < 2 {
 		c.Fail("httpgrpc:roundtrips", token.NoPos, "ANCHOR-MISSING: expected the unary and the streaming RoundTrip, found %d", n)
+	}
+	// The reply reader of a STREAM drains what is left of the reply only after it has completed the stream: marked
+	// it done, closed the request pipe and released the stream's lock. The reply ends when the server's HTTP handler
+	// returns, which waits for the end of the request body; that end comes from the pipe being closed — or from the
+	// application, whose SendMsg needs the lock. Draining first closes a cycle: reply end <- server's request drain
+	// <- request body <- SendMsg <- lock <- reply end.
+	for _, fn := range fns {
+		var pipeClose ssa.Instruction
+		var pipeCloseFn *ssa.Function
+		core.InstrsDeep(fn, func(f *ssa.Function, x ssa.Instruction) {
+			if cc := core.CallOf(x); cc != nil {
+				if ci := core.InfoOf(cc); ci.Name == "CloseWithError" && ci.Recv == "PipeReader" {
+					pipeClose, pipeCloseFn = x, f
+				}
+			}
+		})
+		if pipeClose == nil || fn.Parent() != nil {
+			continue
+		}
+		// the deferred literals of fn, in registration order along the entry path; and where the drain sits
+		type dlit struct {
+			d   *ssa.Defer
+			lit *ssa.Function
+		}
+		var order []dlit
+		for _, b := range fn.Blocks {
+			for _, x := range b.Instrs {
+				if df, ok := x.(*ssa.Defer); ok {
+					if mc, isMC := df.Call.Value.(*ssa.MakeClosure); isMC {
+						order = append(order, dlit{df, mc.Fn.(*ssa.Function)})
+					}
+				}
+			}
+		}
+		drains := func(lit *ssa.Function) (ssa.Instruction, *ssa.Function) {
+			var at ssa.Instruction
+			var in *ssa.Function
+			core.InstrsDeep(lit, func(f *ssa.Function, x ssa.Instruction) {
+				if cc := core.CallOf(x); cc != nil {
+					ci := core.InfoOf(cc)
+					if (ci.Is("io.ReadAll") || ci.Is("io/ioutil.ReadAll") || ci.Is("io.Copy")) && at == nil {
+						at, in = x, f
+					}
+				}
+			})
+			return at, in
+		}
+		key := core.FuncName(fn) + ":reply-drained-after-completion"
+		decided := false
+		for _, dl := range order {
+			at, in := drains(dl.lit)
+			if at == nil {
+				continue
+			}
+			decided = true
+			switch {
+			case dl.lit == pipeCloseFn && in != dl.lit:
+				// the drain is a literal deferred by the completion literal itself: it runs when that literal ends.
+				// It must have been deferred BEFORE the unlock was (deferred calls run last-in-first-out)
+				var dDrain, dUnlock *ssa.Defer
+				core.Instrs(dl.lit, func(x ssa.Instruction) {
+					df, ok := x.(*ssa.Defer)
+					if !ok {
+						return
+					}
+					if mc, isMC := df.Call.Value.(*ssa.MakeClosure); isMC && mc.Fn.(*ssa.Function) == in {
+						dDrain = df
+					}
+					if _, _, rel, _ := core.LockOp(&df.Call); rel {
+						dUnlock = df
+					}
+				})
+				okOrder := dDrain != nil && (dUnlock == nil || core.MustPass(core.Entry(dl.lit), dUnlock, func(y ssa.Instruction) bool { return y == ssa.Instruction(dDrain) }) || !core.Reachable(core.After(dUnlock), dDrain))
+				c.Check(okOrder, key, at.Pos(), "the drain is deferred by the completion step ahead of the unlock: it runs after the stream is done, the pipe closed and the lock released", "the completion step drains the reply while it still holds the stream's lock (the drain is deferred after the unlock, or runs in line): SendMsg cannot learn that the call is over and the request body never ends")
+			case dl.lit == pipeCloseFn:
+				// in line in the completion literal: only after the pipe close, and not under the lock
+				after := core.Reachable(core.After(pipeClose), at)
+				c.Check(after && false, key, at.Pos(), "", "the completion step drains the reply in line, while it holds the stream's lock")
+			default:
+				// a deferred literal of its own: it must run AFTER the completion literal, i.e. be registered BEFORE it
+				var compl *ssa.Defer
+				for _, o := range order {
+					if o.lit == pipeCloseFn {
+						compl = o.d
+					}
+				}
+				runsAfter := compl != nil && core.MustPass(core.Entry(fn), compl, func(y ssa.Instruction) bool { return y == ssa.Instruction(dl.d) })
+				c.Check(runsAfter, key, at.Pos(), "the draining defer is registered before the completion defer, so it runs after it", "the deferred drain of the reply body runs BEFORE the completion step (it was deferred later): on the path that read the trailer under the stream's lock it waits for the end of the reply with the lock held and the request pipe open, while the server waits for the end of the request and the application's SendMsg for the lock — the sender stays blocked until its context ends although the handler has returned")
+			}
+		}
+		if !decided {
+			c.OkTrivial(key, fn.Pos(), "no drain of the reply body in a deferred literal")
+		}
 	}
 }
 
